@@ -197,7 +197,15 @@ def name_pool(rng):
     pool = ["a", "b"]
     for ln in rng.sample(NAMELENS, 3):
         pool.append("" if ln == 0 else base * (ln - 1) + rng.choice("ab"))   # long names share their prefix
+
     return pool
+
+
+def name_pool_raw(rng):
+    """the text names plus non-text identifiers ("~<bytes>", raw keys): one that equals a text name but for the class,
+    one of a length up to beyond the inline size (drv/nodetree.c only; the x14 driver knows text names)"""
+    pool = name_pool(rng)
+    return pool + ["~b", "~" + rng.choice("abx") * rng.choice([2, 27, 60, 300])]
 
 
 def extend(rng, hist, obs, pool, k):
@@ -208,6 +216,7 @@ def extend(rng, hist, obs, pool, k):
     iso = [i for i in live if links[i - 1][:3] == [0, 0, 0]]
     free = [i + 1 for i, l in enumerate(links) if not l]
     names, weights = zip(*OPS)
+    textkeys = [x for x in pool if not x.startswith("~")]      # keys of the searches are text
     for _ in range(k):
         op = rng.choices(names, weights)[0]
         if len(live) < 3 and rng.random() < 0.6:
@@ -242,11 +251,11 @@ def extend(rng, hist, obs, pool, k):
         elif op == "pos":
             arg = {"n": any_handle(), "pos": pos}
         elif op == "locate":
-            arg = {"n": any_handle(), "pos": pos, "key": rng.choice(pool)}
+            arg = {"n": any_handle(), "pos": pos, "key": rng.choice(textkeys)}
         elif op == "find":
-            arg = {"p": any_handle(), "key": rng.choice(pool), "pos": pos}
+            arg = {"p": any_handle(), "key": rng.choice(textkeys), "pos": pos}
         elif op == "next":
-            arg = {"n": any_handle(), "key": rng.choice(pool)}
+            arg = {"n": any_handle(), "key": rng.choice(textkeys)}
         elif op == "traverse":
             arg = {"n": any_handle(), "ord": rng.choice(["pre", "post", "in"])}
         else:
@@ -260,7 +269,7 @@ def extend(rng, hist, obs, pool, k):
 def record_histories(ck, exe, n, steps, batch=10):
     rng = ck.rng
     hists = [[{"a": "init", "arg": {"n": NB}}] for _ in range(n)]
-    pools = [name_pool(rng) for _ in range(n)]
+    pools = [name_pool_raw(rng) for _ in range(n)]
     last = [None] * n
     for _ in range(0, steps, batch):
         for h in range(n):
